@@ -56,3 +56,23 @@ def run(chk):
         "stored list is judged (exactly once), callback counts are recorded",
         "3-body variants are run without bonded interactions (the statement "
         "defines exclusions for pairs only)"]
+
+
+def replay(path):
+    """re-run the single configuration named in a witness file"""
+    import json
+    import shlex
+    w = json.load(open(path))["witness"]
+    args = shlex.split(w["replay"])[1:]
+    h = vf.build_harness("asan", "c03")
+    res = vf.run_proc([h] + args, env=vf.lib_env("asan"), timeout=600)
+    bad = [r for r in res.records() if r.get("t") == "violation"]
+    for r in bad:
+        print("VIOLATION property=C03 replay=%s key=%s %s" %
+              (path, r["key"], r.get("what", "")))
+    if res.rc != 0:
+        print(res.err[-3000:])
+        print("VIOLATION property=C03 replay=%s key=%s" %
+              (path, vf.sanitizer_key(res.err) or "crash/rc%s" % res.rc))
+    print("replayed: %d violation record(s), rc=%d" % (len(bad), res.rc))
+    return 1 if bad or res.rc != 0 else 0
